@@ -58,6 +58,61 @@ def request(tree, env, variant):
 def _request(tree, env, variant):
     if tree[0] == 'v':
         raise Unsupported()
+    go, finish, _ = _ctx(env, variant)
+    if tree[0] in CMP:
+        t1, a = go(tree[2])
+        t2, b = go(tree[3])
+        sx_tree = ['cmp', tree[0], t1, t2]
+    else:
+        sx_tree, _ = go(tree)
+    return finish(sx_tree)
+
+
+IOP = {'iadd': 'add', 'isub': 'sub', 'imul': 'mul', 'itruediv': 'mul'}
+
+
+def request_prog(prog, env, variant):
+    """statement sequences: an in-place operator is the pure operator plus rebinding (`x /= y` is `x := x * y.reciprocal()`,
+    qube.py __itruediv__); the real statements are executed on the shared objects while the request is built"""
+    try:
+        go, finish, objs = _ctx(env, variant)
+        inexact = set()
+        sts = []
+        for st in prog:
+            if st[0] == 'query':
+                go.inexact = inexact
+                t, _ = go(st[1])
+                sts.append(['query', t])
+            elif st[0] == 'iop' and st[1] in IOP:
+                i, rhs = st[2], st[3]
+                if not (isinstance(rhs, list) and rhs[0] == 'v') or env[rhs[1]]['t'] != 'F' or rhs[1] == i:
+                    raise Unsupported()
+                x, y = objs[i], objs[rhs[1]]
+                if np_bcast(list(x._shape_), list(y._shape_)) != list(x._shape_):
+                    raise Unsupported()
+                rt, _ = go(rhs)
+                xt, _ = go(['v', i])
+                if st[1] == 'itruediv':
+                    if not y._shape_ and y._derivs_ and not KF2_REPAIRED:
+                        raise Unsupported()
+                    rt = ['un', 'recip', rt]
+                sts.append(['assign', i, ['bin', IOP[st[1]], xt, rt]])
+                if st[1] in ('imul', 'itruediv'):
+                    inexact.add(i)
+                with warnings.catch_warnings():
+                    warnings.simplefilter('ignore')
+                    try:
+                        O.INPLACE[st[1]](x, y)
+                    except Exception:
+                        pass
+            else:
+                raise Unsupported()
+        return finish(['prog'] + sts)
+    except Unsupported:
+        return None
+
+
+def _ctx(env, variant):
     objs = [O.build(l, variant) for l in env]
     tables = {}
     idx_ids, idxs, ams = {}, [], []
@@ -138,7 +193,8 @@ def _request(tree, env, variant):
                 raise Unsupported()
             if name in ('argmax', 'argmin') and ax is not None and not isinstance(ax, int):
                 raise Unsupported()
-            if name in ('sum', 'mean', 'median') and int(np.prod(shape)) >= 8 and node[2][0] != 'v':
+            if name in ('sum', 'mean', 'median') and int(np.prod(shape)) >= 8 and (
+                    node[2][0] != 'v' or node[2][1] in getattr(go, 'inexact', ())):
                 raise Unsupported()          # NumPy's pairwise summation order is not modelled for inexact operands
             return ['red', name, axes, t], run(name, params, [x])
         if name == 'getitem':
@@ -177,27 +233,23 @@ def _request(tree, env, variant):
             raise Unsupported()
         return r
 
-    if tree[0] in CMP:
-        t1, a = go(tree[2])
-        t2, b = go(tree[3])
-        sx_tree = ['cmp', tree[0], t1, t2]
-    else:
-        sx_tree, _ = go(tree)
-    used = sorted({i for i in _vars(tree) if env[i]['t'] == 'F'})
-    obj_sx = []
-    for i, l in enumerate(env):
-        if l['t'] != 'F' or not (l['t'] == 'F' and not l.get('units') and set(l.get('derivs', {})) <= {'t'}):
-            obj_sx.append([[], [bits(1.0)], True, '-'])       # placeholder, never referenced
-            continue
-        data = l['vals'] if variant == 'A' else l['alt']
-        d = '-'
-        if 't' in l.get('derivs', {}):
-            dl = l['derivs']['t']
-            dd = dl['vals'] if variant == 'A' else dl['alt']
-            d = [[bits(v) for v in dd], mask_sx(dl['mask'], dl['shape'])]
-        obj_sx.append([l['shape'], [bits(v) for v in data], mask_sx(l['mask'], l['shape']), d])
-    tb = [[fn] + [[x, y] for x, y in sorted(rows.items())] for fn, rows in sorted(tables.items())]
-    return ['c03', sx_tree, ['objs'] + obj_sx, ['idxs'] + idxs, ['ams'] + ams, ['tables'] + tb, bits(EXP_CUTOFF)]
+    def finish(sx_tree):
+        obj_sx = []
+        for i, l in enumerate(env):
+            if not leaf_ok(l):
+                obj_sx.append([[], [bits(1.0)], True, '-'])       # placeholder, never referenced
+                continue
+            data = l['vals'] if variant == 'A' else l['alt']
+            d = '-'
+            if 't' in l.get('derivs', {}):
+                dl = l['derivs']['t']
+                dd = dl['vals'] if variant == 'A' else dl['alt']
+                d = [[bits(v) for v in dd], mask_sx(dl['mask'], dl['shape'])]
+            obj_sx.append([l['shape'], [bits(v) for v in data], mask_sx(l['mask'], l['shape']), d])
+        tb = [[fn] + [[x, y] for x, y in sorted(rows.items())] for fn, rows in sorted(tables.items())]
+        return ['c03', sx_tree, ['objs'] + obj_sx, ['idxs'] + idxs, ['ams'] + ams, ['tables'] + tb, bits(EXP_CUTOFF)]
+
+    return go, finish, objs
 
 
 def _vars(tree):
@@ -225,7 +277,12 @@ def canon(res, case):
     masked.  Without a request the full per-node observation list is returned (it is compared with nothing)."""
     if case.get('req') is None:
         return sxable(res)
-    o = res[-1]
+    if 'prog' in case:
+        return [canon1(o) for o in res]
+    return canon1(res[-1])
+
+
+def canon1(o):
     if isinstance(o, str):
         return o
     if o[0] == 'pybool':
